@@ -56,7 +56,7 @@ func checkSecrets(secrets [][]string) error {
 	seen := map[string]bool{}
 	for _, s := range secrets {
 		if len(s) != 2 || s[0] == "" || s[1] == "" || strings.ContainsAny(s[0], ":\n\r") || strings.ContainsAny(s[1], "\n\r") ||
-			strings.HasPrefix(s[1], "$") || strings.HasPrefix(s[1], "{") || s[0] == seqSentinel || seen[s[0]] ||
+			strings.HasPrefix(s[1], "$") || strings.HasPrefix(s[1], "{") || s[0] == seqSentinel ||
 			strings.TrimSpace(s[0]) != s[0] || strings.TrimSpace(s[1]) != s[1] || strings.HasPrefix(s[0], "#") {
 			return fmt.Errorf("unusable htpasswd entry %q", s)
 		}
@@ -193,6 +193,15 @@ func genSecrets(r *hx.Rand) [][]string {
 		}
 		used[u] = true
 		out = append(out, []string{u, r.Pick(seqPasses)})
+	}
+	if r.Chance(1, 5) {
+		// a user listed twice: the later line counts
+		extra := []string{out[r.Intn(len(out))][0], r.Pick(seqPasses)}
+		if r.Chance(1, 2) {
+			out = append(out, extra)
+		} else {
+			out = append([][]string{extra}, out...)
+		}
 	}
 	return out
 }
